@@ -300,7 +300,7 @@ func (o *OperandPegImpl) CalcOffsetByteSize() int {
 
 		// 2. 間接アドレス指定 ([reg+disp], [reg+reg*scale+disp] など)
 		// 32ビットレジスタでアドレス指定する場合は、16ビットモードでも (67h 付きで) 32ビットの規則になる
-		addr32 := o.bitMode != cpu.MODE_16BIT || uses32BitAddressing(memInfo)
+		addr32 := uses32BitAddressing(memInfo) || (o.bitMode != cpu.MODE_16BIT && !uses16BitAddressing(memInfo))
 
 		// ベースなしの [index*scale+disp] は mod=00, base=101 で常に disp32 を伴う
 		if addr32 && memInfo.BaseReg == "" {
@@ -527,11 +527,18 @@ func uses32BitAddressing(mem *MemoryInfo) bool {
 	return strings.HasPrefix(mem.BaseReg, "E") || strings.HasPrefix(mem.IndexReg, "E")
 }
 
+// uses16BitAddressing は、メモリオペランドが 16 ビットレジスタ (BX, BP, SI, DI) でアドレス指定されているかを返します。
+// その場合は 32 ビットモードでも (67h 付きで) 16 ビットの ModR/M 規則になります。
+func uses16BitAddressing(mem *MemoryInfo) bool {
+	is16 := func(r string) bool { return r == "BX" || r == "BP" || r == "SI" || r == "DI" }
+	return is16(mem.BaseReg) || is16(mem.IndexReg)
+}
+
 // CalcSibByteSize は、SIB バイトが必要な場合に 1 を、不要な場合に 0 を返します。
 func (o *OperandPegImpl) CalcSibByteSize() int {
 	memInfo, found := o.GetMemoryInfo()
 	// 32ビットアドレッシング (32ビットモード、または16ビットモードで32ビットレジスタを使う場合) のみ SIB の可能性を考慮
-	if found && memInfo != nil && (o.GetBitMode() == cpu.MODE_32BIT || uses32BitAddressing(memInfo)) {
+	if found && memInfo != nil && (uses32BitAddressing(memInfo) || (o.GetBitMode() == cpu.MODE_32BIT && !uses16BitAddressing(memInfo))) {
 		// ModR/M rm=100 になる条件をチェック (calculateModRM のロジックを参考)
 		isDirectAddr := memInfo.BaseReg == "" && memInfo.IndexReg == ""
 		isEBPBasedNoIndex := memInfo.BaseReg == "EBP" && memInfo.IndexReg == ""
